@@ -256,18 +256,15 @@ def run(ctx):
         if t["ev"] and k not in seen:
             seen.add(k)
             traces.append(t)
-    for timeout in ctx.pick([2], [1, 2]):
-        for ops in exhaustive_ops(ctx.pick(3, 4)):
+    for timeout, depth in ctx.pick([(2, 3)], [(1, 3), (2, 4)]):
+        for ops in exhaustive_ops(depth):
             add(run_history({"timeout": timeout}, ops))
     nex = len(traces)
-    for _ in range(ctx.pick(1200, 20000)):
+    for _ in range(ctx.pick(1200, 10000)):
         add(run_history({"timeout": ctx.rng.choice([1, 2, 3])}, random_ops(ctx.rng, ctx.rng.randint(4, 28))))
     ctx.extra["histories"] = dict(exhaustive_short=nex, random=len(traces) - nex)
     reached = situations(traces)
     ctx.extra["situations_reached_in_real_executions"] = reached
-    if min(reached.values()) == 0:
-        from harness.core import MachineryError
-        raise MachineryError("vacuity: situations never reached by the real executions: %s" % [k for k, v in reached.items() if not v])
     ctx.note_traces(traces)
     rej = ctx.validate("WebSessionTrace", traces, shard_size=ctx.pick(700, 2500))
     for x in rej[:10]:
@@ -276,6 +273,9 @@ def run(ctx):
         ctx.violation("websession/%s" % (e or {}).get("e"),
                       "Site/Session execution not explained by WebSession.tla at event %d: %s" % (x.reached, e),
                       dict(cfg=t["cfg"], ops=t["ops"]))
+    if not rej and min(reached.values()) == 0:      # code-side vacuity guard (only meaningful when the code conforms)
+        from harness.core import MachineryError
+        raise MachineryError("vacuity: situations never reached by the real executions: %s" % [k for k, v in reached.items() if not v])
 
     def mutate(t, rng):
         """corrupt one observed field: the live set, the pending timers, a result, or a callback run"""
